@@ -89,7 +89,10 @@ def impl_access(text):
 
 
 def model_access(texts_):
-    lines = ['access ' + X.elem_line(impl.parse_doc(t)) for t in texts_]
+    lines = []
+    for t in texts_:
+        e = impl.parse_doc(t)
+        lines.append('access %s %s' % (engine.oracle_prefix([e]), X.elem_line(e)))
     res = []
     for l in engine.run_model(lines):
         t = l.split(' ')
@@ -98,15 +101,23 @@ def model_access(texts_):
             continue
         r = X.Reader(t, 1)
         out = {'cls': t[0]}
-        na = int(r.next()[1:])
-        ex = []
-        for _ in range(na):
-            name = X.tok_s(r.next())
-            n = int(r.next())
-            ex.append((name, [X.tok_s(r.next()) for _ in range(n)]))
-        out['exposed'] = ex
-        nx = int(r.next()[1:])
-        out['xml'] = [r.tree() for _ in range(nx)]
+        tok = r.next()
+        if tok == 'Aerr':
+            out['exposed'] = 'err:' + r.next()
+        else:
+            na = int(tok[1:])
+            ex = []
+            for _ in range(na):
+                name = X.tok_s(r.next())
+                n = int(r.next())
+                ex.append((name, [X.tok_s(r.next()) for _ in range(n)]))
+            out['exposed'] = ex
+        tok = r.next()
+        if tok == 'Xerr':
+            out['xml'] = 'err:' + r.next()
+        else:
+            nx = int(tok[1:])
+            out['xml'] = [r.tree() for _ in range(nx)]
         tok = r.next()
         if tok == 'Ierr':
             out['inspect'] = 'err:' + r.next()
@@ -238,12 +249,17 @@ class Check:
             if k in ('stories', 'items', 'source_story') and cls not in ('RunningOrderReplace', 'RunningOrder'):
                 # (roCreate / roReplace outline their metadata, not their stories)
                 for i in v:
-                    if not any(l.endswith(str(i)) for l in ins.split('\n')):
+                    if not (any(l.endswith(str(i)) for l in ins.split('\n')) or str(i) + '\n' in ins):     # (an ID may contain line feeds)
                         return '%s.inspect() does not mention source %r' % (cls, i)
         return None
 
     def run(self, tier, rng, log):
         msgs = [(c['text'], c.get('meta', {})) for c in corpus_cases(self.pid, 'access')] + list(messages(tier, rng))
+        # structural neighbours (gens.mutate_doc) of the generated messages
+        base = list(msgs)
+        for _ in range(1500 if tier == 'quick' else 15000):
+            t, meta = rng.choice(base)
+            msgs.append((gens.mutate_doc(rng, t, None, n=rng.randrange(1, 4)), dict(meta, fuzzed=True)))
         texts_ = [t for t, _ in msgs]
         model = model_access(texts_)
         vio, dis, sigs, dist, samples = [], [], set(), {}, []
